@@ -362,6 +362,30 @@ def build(case):
     return list(bg.primitives())[0]
 
 
+def scaled_tri_check(seed):
+    """implicit triangle normals at the ends of the float32 range: integer meshes times 2^k (exact in float32), unbound and bound.
+    Returns None or (signature, text)"""
+    import random
+    import numpy
+    import collada
+    from collada import source, geometry
+    rng = random.Random('c18s/%s' % seed)
+    verts, tris, kinds = gen_mesh(rng)
+    k = rng.choice([rng.randint(-55, -38), rng.randint(32, 45), rng.randint(-30, 30)])
+    arr = numpy.array(verts, dtype=numpy.float32) * numpy.float32(2.0 ** k)
+    doc = collada.Collada()
+    geom = geometry.Geometry(doc, 'g', 'g', [source.FloatSource('pos', arr.reshape(-1), ('X', 'Y', 'Z'))])
+    il = source.InputList()
+    il.addInput(0, 'VERTEX', '#pos')
+    ts = geom.createTriangleSet(numpy.array(tris, dtype=numpy.int32).reshape(-1), il, 'mat')
+    obj = ts if rng.random() < 0.6 else ts.bind(numpy.identity(4, dtype=numpy.float32), {})
+    V, T = extract(obj)
+    bad, _ = check_tri_normals(obj, V, T)
+    if bad:
+        return ('%s:scaled' % bad[0], 'coordinates scaled by 2^%d: %s' % (k, bad[1]))
+    return None
+
+
 def extract(obj):
     """the inputs of the generators as the object under test holds them (exact)"""
     V = [fvec(r) for r in obj.vertex]
@@ -862,11 +886,26 @@ def run(ctx):
             ctx.violation(sig, 'correspondence Pyc.Normals <-> collada.triangleset broke: %s; the direct oracle found no failing input on this '
                           'case (theorems of Pyc/Props/C18.lean no longer describe the code)' % div,
                           dict(kind='correspondence', case=case, model=m), found_input=False)
+    for i in range(ctx.n(400, 8000)):
+        sseed = ctx.rng.randrange(10 ** 9)
+        ctx.count('implicit-triangle-normals:scaled-mesh')
+        try:
+            sb = scaled_tri_check(sseed)
+        except Exception as e:
+            sb = ('trinormal:scaled:raised', 'implicit normals of a scaled mesh raised %s: %s' % (type(e).__name__, e))
+        if sb and sb[0] not in reported:
+            reported.add(sb[0])
+            ctx.violation(sb[0], sb[1], dict(kind='scaled', seed=sseed))
     ctx.assumptions.append('sqrt / float division are parameters of the model; float32 results are compared with exact rational directions under: ' + BOUNDS)
     ctx.assumptions.append('numpy fancy indexing, numpy.add.at and numpy.cross are modelled (Pyc/Model/Normals.lean), not verified')
 
 
 def replay(ctx, rep):
+    if rep.get('kind') == 'scaled':
+        sb = scaled_tri_check(rep['seed'])
+        if sb:
+            print('  ' + sb[1])
+        return sb is not None
     case = rep['case']
     if rep.get('kind') == 'correspondence' and rep.get('model'):
         # no failing input was found for this one: re-run the comparison against the recorded model answers
